@@ -372,6 +372,25 @@ def sort_value(x):
 _JSON_ROT = [0]
 
 
+def in_fresh_thread(fn):
+    import threading
+
+    box = {}
+
+    def run():
+        try:
+            box["v"] = fn()
+        except BaseException as e:  # noqa: BLE001
+            box["e"] = e
+
+    th = threading.Thread(target=run)
+    th.start()
+    th.join()
+    if "e" in box:
+        raise box["e"]
+    return box["v"]
+
+
 def do_ser(root, f, o, md):
     import json
 
@@ -453,7 +472,12 @@ def impl(t, case):
                 for a in x:
                     _ARMED.add(id(getattr(b.objs[a], FAULT_FIELD)))
                 try:
-                    out = Con("Return", to_sval(do_ser(root, f, o, md)))
+                    if c is calls[-1] and len(calls) % 2 == 0:
+                        # the closing call (no options) from a thread that never serialised before: what one call leaves
+                        # behind may not be per-thread either (seeded change C16-12)
+                        out = Con("Return", to_sval(in_fresh_thread(lambda: do_ser(root, f, o, md))))
+                    else:
+                        out = Con("Return", to_sval(do_ser(root, f, o, md)))
                 except Exception:  # noqa: BLE001
                     out = Con("Raise")
                 finally:
